@@ -78,7 +78,7 @@ CHECKS = {
   technique="Lean 4 proof (partial agreement theorem + witnesses, invariants of the work list) + resolver correspondence on real directory trees + agreement/visibility oracle",
   ref="C14"),
  "C15": dict(
-  text="Lean 4 theorems about the model of add_rust_crate / generate_cargo_toml: every accepted dependency is pinned (version or path; the whole known-good table checked), a crate without a known-good version is always refused, the declared names are exactly the fixed runtime/feature crates plus the rust:: crates (both directions), and no name is declared twice (valid TOML keys). Feature detection: `json_trigger_found_everywhere` / `async_trigger_found_everywhere` — a trigger at any expression position (any path of walker steps: owners incl. newtype methods, trait default methods, const initializers and field defaults; every statement and expression child) is followed by the scanners' match arms (Tool/Scanners: step tables transcribed arm by arm, `decide` over the whole step vocabulary), with the kernel-checked witness `json_trigger_was_missed` for the scanners before three `fix:` commits.",
+  text="The model's known-good crate table is REGENERATED on every run from the match arms of add_rust_crate (a translator that refuses unknown shapes); Lean 4 then re-checks the theorems about the model of add_rust_crate / generate_cargo_toml: every accepted dependency is pinned (version or path; the whole known-good table checked), a crate without a known-good version is always refused, the declared names are exactly the fixed runtime/feature crates plus the rust:: crates (both directions), and no name is declared twice (valid TOML keys). Feature detection: `json_trigger_found_everywhere` / `async_trigger_found_everywhere` — a trigger at any expression position (any path of walker steps: owners incl. newtype methods, trait default methods, const initializers and field defaults; every statement and expression child) is followed by the scanners' match arms (Tool/Scanners: step tables transcribed arm by arm, `decide` over the whole step vocabulary), with the kernel-checked witness `json_trigger_was_missed` for the scanners before three `fix:` commits.",
   note="Tie: model manifest = Cargo.toml written by ProjectGenerator (flags × crate sets, whole table) and by `incan build` with a stub cargo (8 feature-trigger combinations, imports in main and dependency modules, project names). Oracle: exactness, pinning, package/binary name, references found in generated sources ⊆ declared.",
   technique="Lean 4 proof (table + list reasoning) + manifest correspondence + exactness/pinning oracle",
   ref="C15"),
